@@ -329,3 +329,18 @@ func withAnon(fn *ssa.Function) []*ssa.Function {
 	}
 	return out
 }
+
+// allModuleFuncs: module functions plus the package initialisers (which FuncsIn omits when they are synthetic).
+func (c *Ctx) allModuleFuncs() []*ssa.Function {
+	out := append([]*ssa.Function{}, c.Funcs...)
+	seen := map[*ssa.Function]bool{}
+	for _, f := range out {
+		seen[f] = true
+	}
+	for sp := range c.Built {
+		if f := sp.Func("init"); f != nil && !seen[f] && f.Blocks != nil {
+			out = append(out, f)
+		}
+	}
+	return out
+}
